@@ -10,10 +10,14 @@
             ((0 line...) | (1 ln) | (2)) and whether the text is in the lexer's stated domain
      op 91: (91 tstate codes) -> ToySimulation.load_program on SOURCE TEXT: lexer + assembler [toy_load_text]:
             (error option, state after the load) — no Python-side token conversion involved
+     op 93: (93 dcfg icfg (line ...)) -> RiscvSimulation.load_program on SOURCE TEXT, given as its list of lines (str.splitlines), each a list
+            of code points: the RISC-V lexer (Model/Lex.v) + the assembler [Lex.rv_load_text]; answer as request 60
+     op 92: (92 (line ...))  -> the lexer alone on one line: (0) skip | (1) syntax error | (2) accepted ; and whether the line is in the
+            lexer's stated domain
    Every other request goes to [Main.dispatch]. *)
 From ArchSim Require Import Model.Base Model.Mem Model.Cache Model.Fmt Model.RV Model.Single Model.RVSplit
   Model.Pipe Model.Toy Model.Sx Model.Main Model.ToyLex.
-From ArchSim Require Proofs.PipeInv Proofs.SchedDefs Proofs.FlagOffDwb.
+From ArchSim Require Proofs.PipeInv Proofs.SchedDefs Proofs.FlagOffDwb Model.Lex Model.Asm.
 Open Scope Z_scope.
 
 Definition sx_zn (l : list (Z * nat)) : sx :=
@@ -62,4 +66,11 @@ Definition dispatch_all (req : sx) : sx :=
     let s0 := dtstate (dnth req 1) in
     let '(s1, e) := toy_load_text s0 (dzs (dnth req 2)) in
     Lx [sx_opt sx_perr e; sx_tstate s1]
+  else if op =? 93 then
+    let s0 := init_st [] (dmemsys (dnth req 1) []) (dicache (dnth req 2)) in
+    let '(s1, e, img) := Lex.rv_load_text s0 (map dzs (dl (dnth req 3))) in
+    Lx [sx_opt sx_perr e; sx_opt sx_image img; sx_zmap_sorted (ms_lower (ms s1)); sx_st s1]
+  else if op =? 92 then
+    let l := dzs (dnth req 1) in
+    Lx [ Zx (match Lex.lex_line l with Lex.LexSkip => 0 | Lex.LexSyntax => 1 | Lex.LexOk _ => 2 end); sx_bool (Lex.lex_domain l) ]
   else Main.dispatch req.
